@@ -592,8 +592,10 @@ Proof.
   rewrite Hs3. cbn [rbind].
   set (px' := bn_parent px n) in *. set (s3 := put s1 p px').
   assert (Hl1 : (p < length (nodes s1))%nat) by (unfold s1; rewrite put_length; exact Hltp).
-  rewrite (get_put_same s1 p px' Hl1). cbn [rbind].
-  unfold s3 at 1. rewrite get_put_other by congruence. unfold s1 at 1. rewrite get_put_same by exact Hlt. cbn [rbind].
+  assert (Hg3p : get s3 p = Ok px') by (apply get_put_same, Hl1).
+  assert (Hg3n : get s3 n = Ok (r_in x)).
+  { unfold s3. rewrite get_put_other by congruence. unfold s1. apply get_put_same, Hlt. }
+  rewrite Hg3p. cbn [rbind]. rewrite Hg3n. cbn [rbind].
   change (height (meta_ (r_in x))) with 0.
   destruct (Z.leb_spec 0 (height (meta_ px'))) as [_|]; [|lia]. cbn [rbind].
   set (x2 := with_meta (r_in x) (set_height (meta_ (r_in x)) (height (meta_ px') + 1))).
@@ -604,4 +606,91 @@ Proof.
   unfold addIfNotPresent. rewrite (get_put_same s3 n x2 Hl3). cbn [rbind].
   change (hrh (meta_ x2)) with (hrh (meta_ x)). rewrite Hhrh. cbn [Z.eqb unset Pos.eqb].
   rewrite (heapAdd_Ok _ n x2); [rewrite put_put; reflexivity|apply lookup_put_same, Hl3|simpl; lia].
+Qed.
+
+Lemma put_comm s n a p b : n <> p -> put (put s n a) p b = put (put s p b) n a.
+Proof. intros H. unfold put. simpl. f_equal. apply list_insert_commute. congruence. Qed.
+
+Lemma snapshot_parent cfg now0 s n x p at_ before :
+  cfg_ok now0 cfg -> Inv cfg s -> nodes s !! n = Some x -> kind_ x = KSnapshot p at_ before ->
+  exists px v0, nodes s !! p = Some px /\ kind_ px = KVar v0 /\ p <> n.
+Proof.
+  intros Hc [Hlen Hall] Hx Hk. destruct (Hall _ _ Hx) as [Hcx _]. rewrite Hk in Hcx.
+  destruct (Hc _ _ Hcx) as [v0 Hp].
+  destruct (lookup_lt_is_Some_2 (nodes s) p) as [px Hpx].
+  { rewrite Hlen. eapply lookup_lt_Some; eauto. }
+  destruct (Hall _ _ Hpx) as [Hcp _]. exists px, v0. split; [exact Hpx|]. split; [congruence|].
+  intros ->. congruence.
+Qed.
+
+Lemma var_no_parents px v0 : kind_ px = KVar v0 -> nodeParents px = [] /\ isVar px = true.
+Proof. unfold nodeParents, isVar. intros ->. auto. Qed.
+
+Lemma isNecessary_observed x k :
+  isNecessary (with_meta x (set_observers (meta_ x) (S k))) = true.
+Proof. reflexivity. Qed.
+
+Lemma Observe_Inv cfg now0 s n s' :
+  cfg_ok now0 cfg -> Inv cfg s -> Observe s n = Ok s' ->
+  Inv cfg s' /\ now s' = now s /\ num s' = num s.
+Proof.
+  intros Hc HI. unfold Observe. destruct (get s n) as [x| |] eqn:Hx; cbn [rbind]; try discriminate.
+  apply get_Ok in Hx. pose proof (lookup_lt _ _ _ Hx) as Hlt.
+  destruct HI as [Hlen Hall]. destruct (Hall _ _ Hx) as [Hcx Hix].
+  set (x1 := with_meta x (set_observers (meta_ x) (S (observers (meta_ x))))).
+  assert (Hi1 : inGraph (meta_ x) = true -> nodeInv (length cfg) (now s) x1).
+  { intros Hg. destruct Hix as [Hz Hh He Hf Hn Hl Hk]. constructor; auto; try (rewrite Hg; reflexivity). }
+  fold x1. destruct (isNecessary x) eqn:Hnec.
+  - intros [= <-]. split; [|auto]. apply (Inv_put cfg s n x x1); [split; auto|exact Hx|reflexivity|].
+    apply Hi1. rewrite <- (ni_nec _ _ _ _ Hix). exact Hnec.
+  - assert (Hg : inGraph (meta_ x) = false) by (rewrite <- (ni_nec _ _ _ _ Hix); exact Hnec).
+    destruct (ni_zero _ _ _ _ Hix Hg) as (Hrec & Hhrh & Hhe).
+    set (s1 := put s n x1).
+    assert (Hx1 : nodes s1 !! n = Some x1) by (apply lookup_put_same, Hlt).
+    unfold fuel_of. unfold s1 at 1. rewrite put_length.
+    destruct (kind_ x) as [v0|when|start every|initial steps|p at_ before] eqn:Hk.
+    5: {
+      destruct (snapshot_parent cfg now0 s n x p at_ before Hc (conj Hlen Hall) Hx Hk) as (px & v0 & Hpx & Hkp & Hpn).
+      destruct (var_no_parents _ _ Hkp) as [Hpp Hvp].
+      destruct (Hall _ _ Hpx) as [Hcp Hip].
+      assert (Hl : exists len', length (nodes s) = S len') by (destruct (length (nodes s)); [lia|eauto]).
+      destruct Hl as [len' Hl]. rewrite Hl.
+      assert (Hh' : 0 <= height (meta_ (bn_parent px n))).
+      { unfold bn_parent. destruct (isNecessary px) eqn:Hnp.
+        - simpl. apply (ni_height _ _ _ _ Hip). rewrite <- (ni_nec _ _ _ _ Hip). exact Hnp.
+        - unfold bn_leaf. destruct (_ && _ && _); simpl; lia. }
+      rewrite (BN_snap len' s1 n x1 p at_ before px); auto.
+      2: { unfold s1. rewrite lookup_put_other by exact Hpn. exact Hpx. }
+      intros [= <-]. split; [|auto].
+      unfold s1. rewrite put_put. rewrite (put_comm s n _ p _) by congruence. rewrite put_put.
+      eapply (Inv_put cfg _ n x).
+      - eapply (Inv_put cfg s p px); [split; auto|exact Hpx| |].
+        + unfold bn_parent, bn_leaf. destruct (isNecessary px); [reflexivity|]. destruct (_ && _ && _); reflexivity.
+        + destruct Hip as [Hz Hh He Hf Hn Hl' Hkk].
+          assert (Hkids : Forall (fun c => (c < length cfg)%nat) (children (meta_ px) ++ [n])).
+          { apply Forall_app. split; [exact Hkk|]. constructor; [lia|constructor]. }
+          assert (Hnn : isNecessary (link_rec px n) = true).
+          { unfold isNecessary, link_rec. simpl. destruct (children (meta_ px)); simpl; apply orb_true_r. }
+          unfold bn_parent. destruct (isNecessary px) eqn:Hnp.
+          * constructor; simpl; auto; try congruence.
+            -- rewrite <- Hn. exact Hnn.
+            -- rewrite Hvp. discriminate.
+          * unfold bn_leaf. change (isVar (link_rec px n)) with (isVar px). rewrite Hvp. cbn [negb andb].
+            constructor; simpl; auto; try discriminate; try lia.
+            -- intros _ _. unfold fresh. simpl. rewrite Hkp. exact I.
+            -- rewrite Hvp. discriminate.
+      - rewrite lookup_put_other by congruence. exact Hx.
+      - reflexivity.
+      - destruct Hix as [Hz Hh He Hf Hn Hl' Hkk]. unfold bn_snap.
+        constructor; simpl; auto; try discriminate; try lia.
+        intros _ Hu. unfold unset in Hu. lia. }
+    all: (* kinds without inputs *)
+      assert (Hp : nodeParents x1 = []) by (unfold nodeParents; simpl; rewrite Hk; reflexivity);
+      rewrite (BN_leaf _ s1 n x1 Hx1 Hp); intros [= <-]; (split; [|auto]);
+      unfold s1; rewrite put_put;
+      apply (Inv_put cfg s n x); [split; auto|exact Hx|unfold bn_leaf; destruct (_ && _ && _); reflexivity|];
+      destruct Hix as [Hz Hh He Hf Hn Hl' Hkk]; unfold bn_leaf, isVar; simpl; rewrite Hk, Hrec, Hhrh; simpl;
+      constructor; simpl; auto; try discriminate; try lia;
+      try (intros _ _; unfold fresh; simpl; rewrite Hk; exact I);
+      try (intros _ Hu; unfold unset in Hu; lia).
 Qed.
